@@ -248,6 +248,25 @@ def b64cred(a, b):
     return "Basic " + base64.b64encode(f"{a}:{b}".encode("utf-8")).decode("ascii")
 
 
+class _Sink(__import__("logging").Handler):
+    def emit(self, record):
+        try:
+            record.getMessage()         # format the message like a real handler would
+        except Exception:
+            pass
+
+
+def set_debug_logging(on):
+    """the logging level is part of the configuration a run draws: with DEBUG on, the library's
+    request/response logging code actually runs (into a sink)"""
+    import logging
+    for name in ("ak.conn_http", "ak.mcaller", "ak.mcaller_http"):
+        lg = logging.getLogger(name)
+        lg.propagate = False
+        lg.handlers[:] = [_Sink()]
+        lg.setLevel(logging.DEBUG if on else logging.WARNING)
+
+
 def install_seams(rng_seed, log):
     """Replace the nondeterminism seams of ak.conn_http for this run."""
     shim = threadsim.ThreadingShim()
